@@ -247,7 +247,9 @@ func (in *Interp) equals(t types.Type, x, y value) *Term {
 		}
 		return tb.Eq(x, yt)
 	case string, *Rope:
-		return in.strEq(x, y)
+		// strings whose rendered pieces do not line up are reported as different; a
+		// counterexample built on that is confirmed natively or ends inconclusive
+		return in.strEqLoose(x, y)
 	case *value:
 		return tb.Bool(x == y.(*value))
 	case *Chan:
